@@ -6,7 +6,8 @@
 REPO    ?= /repo
 V       ?= /verif
 VARIANT ?= asan
-B       := $(V)/build/$(VARIANT)
+BROOT   ?= $(V)/build
+B       := $(BROOT)/$(VARIANT)
 
 CC := gcc
 ifeq ($(VARIANT),asan)
@@ -43,6 +44,7 @@ CTLCLI_OBJ := $(patsubst $(REPO)/%.c,$(B)/repo/%.o,$(CTLCLI_SRC))
 
 RELAY_SRC := $(wildcard $(REPO)/tools/xcmrelay/*.c) $(REPO)/tools/common/attr.c
 RELAY_OBJ := $(patsubst $(REPO)/%.c,$(B)/repo/%.o,$(RELAY_SRC))
+REPO_UTIL_OBJ :=
 
 SHIM_OBJ := $(B)/shim/shim.o
 CARES_STUB_OBJ := $(B)/shim/cares_stub.o
@@ -96,8 +98,42 @@ $(B)/bin/attr_exec: $(B)/harness/attr_exec.o $(SHIM_OBJ) $(LIB_OBJ)
 	@mkdir -p $(dir $@)
 	@$(CC) $(SAN) -o $@ $^ $(WRAP) $(LDLIBS_REAL)
 
+$(B)/bin/tconn_exec: $(B)/harness/tconn_exec.o $(SHIM_OBJ) $(CARES_STUB_OBJ) $(LIB_OBJ)
+	@mkdir -p $(dir $@)
+	@$(CC) $(SAN) -o $@ $^ $(WRAP) $(LDLIBS_STUB)
+
+$(B)/bin/life_exec: $(B)/harness/life_exec.o $(SHIM_OBJ) $(LIB_OBJ)
+	@mkdir -p $(dir $@)
+	@$(CC) $(SAN) -o $@ $^ $(WRAP) $(LDLIBS_REAL)
+
+$(B)/bin/ctl_exec: $(B)/harness/ctl_exec.o $(SHIM_OBJ) $(LIB_OBJ) $(CTLCLI_OBJ)
+	@mkdir -p $(dir $@)
+	@$(CC) $(SAN) -o $@ $^ $(WRAP) $(LDLIBS_REAL)
+
+$(B)/bin/tlsmx_exec: $(B)/harness/tlsmx_exec.o $(SHIM_OBJ) $(LIB_OBJ)
+	@mkdir -p $(dir $@)
+	@$(CC) $(SAN) -o $@ $^ $(WRAP) $(LDLIBS_REAL)
+
+$(B)/bin/creds_exec: $(B)/harness/creds_exec.o $(SHIM_OBJ) $(LIB_OBJ)
+	@mkdir -p $(dir $@)
+	@$(CC) $(SAN) -o $@ $^ $(WRAP) $(LDLIBS_REAL)
+
+# threads harness: no shim (the interposition tables are not thread-safe); use VARIANT=tsan
+$(B)/bin/thr_exec: $(B)/harness/thr_exec.o $(LIB_OBJ)
+	@mkdir -p $(dir $@)
+	@$(CC) $(SAN) -o $@ $^ $(LDLIBS_REAL)
+
+# relay: the tool itself built from the working tree, and the two-endpoint driver
+$(B)/bin/xcmrelay: $(RELAY_OBJ) $(REPO_UTIL_OBJ) $(LIB_OBJ)
+	@mkdir -p $(dir $@)
+	@$(CC) $(SAN) -o $@ $^ $(LDLIBS_REAL) -levent
+
+$(B)/bin/relay_exec: $(B)/harness/relay_exec.o $(LIB_OBJ)
+	@mkdir -p $(dir $@)
+	@$(CC) $(SAN) -o $@ $^ $(LDLIBS_REAL)
+
 clean:
-	rm -rf $(V)/build
+	rm -rf $(BROOT)
 
 -include $(LIB_OBJ:.o=.d) $(wildcard $(B)/shim/*.d) $(wildcard $(B)/harness/*.d) \
          $(CTLCLI_OBJ:.o=.d) $(RELAY_OBJ:.o=.d)
